@@ -253,7 +253,8 @@ def e2_op_strategies(nparts, ngroups, profile):
             vec(0, profile.get('demand_hi', 8)),
             st.sampled_from([None, None, 0, 1, 5, 50, 100]),
             lease,
-            st.sampled_from([None, '0s', '30s', '10m', '1h', '1d']),
+            st.sampled_from(profile.get(
+                'retention', [None, '0s', '30s', '10m', '1h', '1d'])),
             group, traits,
             st.sampled_from([False, False, False, True]),
             st.sampled_from([1, 1, 1, 2, 3]),
@@ -337,7 +338,7 @@ def master_case(draw, profile=None):
         for _r in range(draw(st.integers(1, profile.get('max_racks', 2)))):
             racks.append(draw(st.lists(
                 e2_server_spec(nparts, up=False),
-                min_size=0 if racks else 1,
+                min_size=0 if racks else profile.get('min_servers', 1),
                 max_size=profile.get('max_servers', 3))))
         pods.append(racks)
     case = {
